@@ -19,6 +19,7 @@ import (
 	"testing"
 	"time"
 
+	"github.com/ollama/ollama/fs/ggml"
 	"github.com/ollama/ollama/verifsim"
 )
 
@@ -28,7 +29,30 @@ var ggufBoundary = []uint64{0, 1, 2, 1 << 31, 1<<32 - 1, 1 << 32, 1 << 63, 1<<64
 func damageGGUF(orig []byte) ([]byte, string) {
 	d := verifsim.Draw
 	b := append([]byte(nil), orig...)
-	switch d("damage-kind", 7) {
+	switch d("damage-kind", 8) {
+	case 7:
+		// two tensors, each smaller than 2^63 bytes, whose sizes add up - together with
+		// the position of the tensor data and the other tensors - to 2^64 plus a small
+		// offset: arithmetic over the sum of the sizes wraps around to the start of the file
+		f, _, err := ggml.Decode(bytes.NewReader(orig), 0)
+		i1, i2 := bytes.Index(b, []byte("blk.0.attn.weight")), bytes.Index(b, []byte("output.weight"))
+		if err == nil && i1 >= 0 && i2 >= 0 {
+			tOff := f.Tensors().Offset
+			others := uint64(32 * (len(f.Tensors().Items()) - 2))
+			target := []uint64{0, 0, tOff, 32}[d("sum-target", 4)]
+			s1 := uint64(1)<<63 - 32*uint64(1+d("sum-s1", 4))
+			s2 := target - tOff - others - s1 // modulo 2^64
+			if s2 < 1<<63 && s2%4 == 0 {
+				o1, o2 := i1+len("blk.0.attn.weight"), i2+len("output.weight")
+				if d("sum-swap", 2) == 0 {
+					o1, o2 = o2, o1
+				}
+				binary.LittleEndian.PutUint64(b[o1+4:], s1/4)
+				binary.LittleEndian.PutUint64(b[o2+4:], s2/4)
+				return b, fmt.Sprintf("two tensor dimensions := %#x, %#x (sizes add up to 2^64+%d-%d)", s1/4, s2/4, target, tOff+others)
+			}
+		}
+		fallthrough
 	case 5, 6:
 		// the dimension of a tensor (located through the tensor's name): name, n_dims u32, dim u64
 		names := []string{"output.weight", "blk.0.attn.weight"}
